@@ -21,11 +21,23 @@
      "noreset"        GetBuffer does not Reset a pooled buffer
      "cacheunlocked"  getWatchedStrings reads the cache map before taking the mutex
      "idrace"         the once-handle id is read and written in two steps
-     "doubleput"      a scratch object is released twice for one Get (by the step and by its caller)        *)
+     "doubleput"      a scratch object is released twice for one Get (by the step and by its caller)
+     "adoptbufio"     Buffer.Reset builds the private bufio.Writer of a new pool buffer with
+                      bufio.NewWriterSize(w, size), which returns w itself when the destination w is a
+                      *bufio.Writer of at least that size: the pool buffer adopts the caller's writer
+
+   Destinations.  Every goroutine renders into a destination of one kind (DestKinds):
+     "plain"       a fresh io.Writer per render,
+     "bufioBig"    the goroutine's long-lived *bufio.Writer (size >= the pool buffer's) in front of its output,
+     "bufioSmall"  the same with a smaller size,
+     "buffer"      the goroutine's own *runtime.Buffer (GetBuffer finds it: no pool involved);
+   for the last three the caller flushes its writer after Render.  Invariant OwnDestinationOnly: the bytes
+   of a render reach its own destination only.                                                        *)
 EXTENDS Integers, Sequences, FiniteSets, TLC, RenderPoolOps
 
 CONSTANTS G, M, DocLen, NBuf, FailAt, DevMode, MaxVer, Bug,
-          Scratch     \* TRUE: every render has one step that uses a pooled scratch object
+          Scratch,    \* TRUE: every render has one step that uses a pooled scratch object
+          DestKinds   \* kinds of destination writers explored (each goroutine gets one)
 
 Render == G \X (1..M)
 Bufs == 1..NBuf
@@ -41,7 +53,10 @@ VARIABLES pc,        \* per goroutine
           holders, pooled, made,   \* pool protocol state (RenderPoolOps): holding relation over Obj, the bag [Obj -> count],
                                    \* made = runtime buffers created so far
           sheld, smade, scr,       \* scratch kind: per goroutine the object in use (0 = none), objects created, per object its content
-          buf,       \* per buffer object: [data, w]  data = tokens buffered, w = render whose writer it points at
+          buf,       \* per buffer object: [data, w, alias]  data = tokens buffered in its private bufio.Writer, w = the
+                     \* destination it points at (a reference), alias = goroutine whose bufio.Writer it uses INSTEAD (0 = none)
+          dk,        \* per goroutine: kind of its destination
+          bw,        \* per goroutine: its own buffered writer in front of its output: [data, tgt]
           sink,      \* per render: tokens its writer received
           res,       \* per render: "run" | "nil" | "err"
           mutex,     \* watchStateMutex: holder or 0
@@ -51,19 +66,26 @@ VARIABLES pc,        \* per goroutine
           lit,       \* per goroutine: version of the literal list it got from getWatchedStrings
           nextid, ids, tmpid       \* once-handle ids: counter, ids handed out (bag as sequence), per-goroutine read
 
-vars == <<pc, m, i, held, holders, pooled, made, sheld, smade, scr, buf, sink, res, mutex, cache, file, inmap, lit, nextid, ids, tmpid>>
+vars == <<pc, m, i, held, holders, pooled, made, sheld, smade, scr, buf, dk, bw, sink, res, mutex, cache, file, inmap, lit, nextid, ids, tmpid>>
 
 R(g) == <<g, m[g]>>
 \* tokens without the 4th component (literal: file version; scratch step 0: the data read back from the object)
 Doc(r) == (IF Scratch THEN << <<r[1], r[2], 0>> >> ELSE <<>>) \o [k \in 1..DocLen |-> <<r[1], r[2], k>>]
 Strip(s) == [k \in 1..Len(s) |-> <<s[k][1], s[k][2], s[k][3]>>]
 NoR == <<0, 0>>
+\* references to writers: a render's fresh plain writer, a goroutine's buffered writer, a goroutine's output behind it
+NoRef == <<"none", 0>>
+SinkRef(r) == <<"sink", r>>
+BwRef(g) == <<"bw", g>>
+UndRef(g) == <<"und", g>>
 
 Init == /\ pc = [g \in G |-> "id"] /\ m = [g \in G |-> 1] /\ i = [g \in G |-> 1]
         /\ held = [g \in G |-> 0]
         /\ holders = {} /\ pooled = [o \in Obj |-> 0] /\ made = 0
         /\ sheld = [g \in G |-> 0] /\ smade = 0 /\ scr = [b \in Bufs |-> {}]
-        /\ buf = [b \in Bufs |-> [data |-> <<>>, w |-> NoR]]
+        /\ buf = [b \in Bufs |-> [data |-> <<>>, w |-> NoRef, alias |-> 0]]
+        /\ dk \in [G -> DestKinds]
+        /\ bw = [g \in G |-> [data |-> <<>>, tgt |-> UndRef(g)]]
         /\ sink = [r \in Render |-> <<>>] /\ res = [r \in Render |-> "run"]
         /\ mutex = 0 /\ cache = [cached |-> FALSE, ver |-> 0] /\ file = 1 /\ inmap = {}
         /\ lit = [g \in G |-> 0]
@@ -75,33 +97,59 @@ Goto(g, l) == pc' = [pc EXCEPT ![g] = l]
 NewHandle(g) ==
     /\ pc[g] = "id"
     /\ IF Bug = "idrace"
-       THEN /\ tmpid' = [tmpid EXCEPT ![g] = nextid] /\ Goto(g, "id2") /\ UNCHANGED <<sheld, smade, scr, nextid, ids>>
+       THEN /\ tmpid' = [tmpid EXCEPT ![g] = nextid] /\ Goto(g, "id2") /\ UNCHANGED <<dk, bw, sheld, smade, scr, nextid, ids>>
        ELSE /\ nextid' = nextid + 1 /\ ids' = Append(ids, nextid + 1) /\ Goto(g, "get") /\ UNCHANGED tmpid
-    /\ UNCHANGED <<sheld, smade, scr, m, i, held, holders, pooled, made, buf, sink, res, mutex, cache, file, inmap, lit>>
+    /\ UNCHANGED <<dk, bw, sheld, smade, scr, m, i, held, holders, pooled, made, buf, sink, res, mutex, cache, file, inmap, lit>>
 NewHandle2(g) ==
     /\ pc[g] = "id2"
     /\ nextid' = tmpid[g] + 1 /\ ids' = Append(ids, tmpid[g] + 1) /\ Goto(g, "get")
-    /\ UNCHANGED <<sheld, smade, scr, m, i, held, holders, pooled, made, buf, sink, res, mutex, cache, file, inmap, lit, tmpid>>
+    /\ UNCHANGED <<dk, bw, sheld, smade, scr, m, i, held, holders, pooled, made, buf, sink, res, mutex, cache, file, inmap, lit, tmpid>>
 
 \* b = bufferPool.Get().(*Buffer)
+DestRef(g) == IF dk[g] = "plain" THEN SinkRef(R(g)) ELSE BwRef(g)
+Body(g) == IF Scratch THEN "sget" ELSE IF DevMode THEN "lock" ELSE "write"
+
+\* GetBuffer(w) when w is the caller's own *runtime.Buffer: it is used as it is, no pool
+Existing(g) ==
+    /\ pc[g] = "get" /\ dk[g] = "buffer"
+    /\ i' = [i EXCEPT ![g] = 1]
+    /\ Goto(g, Body(g))
+    /\ UNCHANGED <<dk, bw, sheld, smade, scr, m, held, holders, pooled, made, buf, sink, res, mutex, cache, file, inmap, lit, nextid, ids, tmpid>>
+
 Get(g) ==
-    /\ pc[g] = "get"
+    /\ pc[g] = "get" /\ dk[g] # "buffer"
     /\ \E b \in {x \in Bufs : pooled[BufObj(x)] > 0} \cup (IF made < NBuf THEN {made + 1} ELSE {}) :
           /\ held' = [held EXCEPT ![g] = b]
           /\ holders' = HGet(holders, R(g), BufObj(b))
           /\ pooled' = IF pooled[BufObj(b)] > 0 THEN BGet(pooled, BufObj(b)) ELSE pooled
           /\ made' = IF pooled[BufObj(b)] = 0 THEN made + 1 ELSE made
     /\ Goto(g, "reset")
-    /\ UNCHANGED <<sheld, smade, scr, m, i, buf, sink, res, mutex, cache, file, inmap, lit, nextid, ids, tmpid>>
+    /\ UNCHANGED <<dk, bw, sheld, smade, scr, m, i, buf, sink, res, mutex, cache, file, inmap, lit, nextid, ids, tmpid>>
 
 \* b.Reset(w)
 Reset(g) ==
     /\ pc[g] = "reset"
-    /\ buf' = IF Bug = "noreset" /\ buf[held[g]].w # NoR THEN buf
-              ELSE [buf EXCEPT ![held[g]] = [data |-> <<>>, w |-> R(g)]]
+    /\ LET b == held[g]
+           fresh == buf[b].w = NoRef
+           \* b.b = bufio.NewWriterSize(..., DefaultBufferSize) on first use
+           a == IF fresh /\ Bug = "adoptbufio" /\ dk[g] = "bufioBig" THEN g ELSE buf[b].alias
+       IN
+       IF Bug = "noreset" /\ ~fresh THEN UNCHANGED <<buf, bw>>
+       ELSE /\ buf' = [buf EXCEPT ![b] = [data |-> <<>>, w |-> DestRef(g), alias |-> a]]
+            \* b.b.Reset(w): on an adopted writer this empties and re-points the CALLER's bufio.Writer
+            \* (bufio.Writer.Reset(w) does nothing when w is the writer itself)
+            /\ bw' = IF a = 0 \/ DestRef(g) = BwRef(a) THEN bw
+                      ELSE [bw EXCEPT ![a] = [data |-> <<>>, tgt |-> DestRef(g)]]
     /\ i' = [i EXCEPT ![g] = 1]
-    /\ Goto(g, IF Scratch THEN "sget" ELSE IF DevMode THEN "lock" ELSE "write")
-    /\ UNCHANGED <<sheld, smade, scr, m, held, holders, pooled, made, sink, res, mutex, cache, file, inmap, lit, nextid, ids, tmpid>>
+    /\ Goto(g, Body(g))
+    /\ UNCHANGED <<dk, sheld, smade, scr, m, held, holders, pooled, made, sink, res, mutex, cache, file, inmap, lit, nextid, ids, tmpid>>
+
+\* a write of the render: into the caller's own Buffer (kind "buffer"), else into the pool buffer's bufio.Writer --
+\* which is the adopting goroutine's writer if there is an alias
+Emit(g, tok) ==
+    IF dk[g] = "buffer" THEN bw' = [bw EXCEPT ![g].data = Append(@, tok)] /\ UNCHANGED buf
+    ELSE IF buf[held[g]].alias = 0 THEN buf' = [buf EXCEPT ![held[g]].data = Append(@, tok)] /\ UNCHANGED bw
+    ELSE bw' = [bw EXCEPT ![buf[held[g]].alias].data = Append(@, tok)] /\ UNCHANGED buf
 
 (* a step of the render that works in a pooled scratch object *)
 \* o = pool.Get()
@@ -113,21 +161,21 @@ SGet(g) ==
           /\ pooled' = IF pooled[ScrObj(b)] > 0 THEN BGet(pooled, ScrObj(b)) ELSE pooled
           /\ smade' = IF pooled[ScrObj(b)] = 0 THEN smade + 1 ELSE smade
     /\ Goto(g, "sadd")
-    /\ UNCHANGED <<scr, m, i, held, made, buf, sink, res, mutex, cache, file, inmap, lit, nextid, ids, tmpid>>
+    /\ UNCHANGED <<dk, bw, scr, m, i, held, made, buf, sink, res, mutex, cache, file, inmap, lit, nextid, ids, tmpid>>
 
 \* the render puts its own data into the object (class names, rendered bytes, ...)
 SAdd(g) ==
     /\ pc[g] = "sadd"
     /\ scr' = [scr EXCEPT ![sheld[g]] = @ \cup {R(g)}]
     /\ Goto(g, "sread")
-    /\ UNCHANGED <<sheld, smade, m, i, held, holders, pooled, made, buf, sink, res, mutex, cache, file, inmap, lit, nextid, ids, tmpid>>
+    /\ UNCHANGED <<dk, bw, sheld, smade, m, i, held, holders, pooled, made, buf, sink, res, mutex, cache, file, inmap, lit, nextid, ids, tmpid>>
 
 \* ... and reads the result back into its document
 SRead(g) ==
     /\ pc[g] = "sread"
-    /\ buf' = [buf EXCEPT ![held[g]].data = Append(@, <<g, m[g], 0, scr[sheld[g]]>>)]
+    /\ Emit(g, <<g, m[g], 0, scr[sheld[g]]>>)
     /\ Goto(g, "sput")
-    /\ UNCHANGED <<sheld, smade, scr, m, i, held, holders, pooled, made, sink, res, mutex, cache, file, inmap, lit, nextid, ids, tmpid>>
+    /\ UNCHANGED <<dk, sheld, smade, scr, m, i, held, holders, pooled, made, sink, res, mutex, cache, file, inmap, lit, nextid, ids, tmpid>>
 
 \* release: clear the object and Put it; the render does not touch it afterwards
 SPut(g) ==
@@ -137,7 +185,7 @@ SPut(g) ==
     /\ holders' = HDrop(holders, R(g), ScrObj(sheld[g]))
     /\ IF Bug = "doubleput" THEN Goto(g, "sput2") /\ UNCHANGED sheld
                             ELSE Goto(g, IF DevMode THEN "lock" ELSE "write") /\ sheld' = [sheld EXCEPT ![g] = 0]
-    /\ UNCHANGED <<smade, m, i, held, made, buf, sink, res, mutex, cache, file, inmap, lit, nextid, ids, tmpid>>
+    /\ UNCHANGED <<dk, bw, smade, m, i, held, made, buf, sink, res, mutex, cache, file, inmap, lit, nextid, ids, tmpid>>
 
 \* "doubleput": the caller's deferred release clears and Puts the same object once more
 SPut2(g) ==
@@ -146,7 +194,7 @@ SPut2(g) ==
     /\ pooled' = BPut(pooled, ScrObj(sheld[g]))
     /\ sheld' = [sheld EXCEPT ![g] = 0]
     /\ Goto(g, IF DevMode THEN "lock" ELSE "write")
-    /\ UNCHANGED <<smade, m, i, held, holders, made, buf, sink, res, mutex, cache, file, inmap, lit, nextid, ids, tmpid>>
+    /\ UNCHANGED <<dk, bw, smade, m, i, held, holders, made, buf, sink, res, mutex, cache, file, inmap, lit, nextid, ids, tmpid>>
 
 (* development mode: runtime.WriteString -> getWatchedStrings(txtFilePath) *)
 CacheLock(g) ==
@@ -154,85 +202,102 @@ CacheLock(g) ==
     /\ IF Bug = "cacheunlocked"
        THEN Goto(g, "lookup") /\ UNCHANGED mutex            \* fast path reads the map before locking
        ELSE mutex = 0 /\ mutex' = g /\ Goto(g, "lookup")
-    /\ UNCHANGED <<sheld, smade, scr, m, i, held, holders, pooled, made, buf, sink, res, cache, file, inmap, lit, nextid, ids, tmpid>>
+    /\ UNCHANGED <<dk, bw, sheld, smade, scr, m, i, held, holders, pooled, made, buf, sink, res, cache, file, inmap, lit, nextid, ids, tmpid>>
 
 \* state, cached := watchModeCache[txtFilePath]  ... begins touching the map
 CacheLookup(g) ==
     /\ pc[g] = "lookup"
     /\ inmap' = inmap \cup {g}
     /\ Goto(g, "decide")
-    /\ UNCHANGED <<sheld, smade, scr, m, i, held, holders, pooled, made, buf, sink, res, mutex, cache, file, lit, nextid, ids, tmpid>>
+    /\ UNCHANGED <<dk, bw, sheld, smade, scr, m, i, held, holders, pooled, made, buf, sink, res, mutex, cache, file, lit, nextid, ids, tmpid>>
 
 \* hit (fresh enough / not modified): return state.strings; miss or modified: cacheStrings writes the map
 CacheDecide(g) ==
     /\ pc[g] = "decide"
     /\ \/ /\ cache.cached                                   \* time.Since(modTime) < 100ms, or ModTime not after
-          /\ lit' = [lit EXCEPT ![g] = cache.ver] /\ UNCHANGED <<sheld, smade, scr, cache, mutex>>
+          /\ lit' = [lit EXCEPT ![g] = cache.ver] /\ UNCHANGED <<dk, bw, sheld, smade, scr, cache, mutex>>
        \/ /\ ~cache.cached \/ file > cache.ver              \* cacheStrings: read the file, store it
           /\ (Bug = "cacheunlocked") => (mutex = 0 \/ mutex = g)
           /\ cache' = [cached |-> TRUE, ver |-> file]
           /\ lit' = [lit EXCEPT ![g] = file]
           /\ mutex' = IF Bug = "cacheunlocked" THEN g ELSE mutex
     /\ Goto(g, "unlock")
-    /\ UNCHANGED <<sheld, smade, scr, m, i, held, holders, pooled, made, buf, sink, res, file, inmap, nextid, ids, tmpid>>
+    /\ UNCHANGED <<dk, bw, sheld, smade, scr, m, i, held, holders, pooled, made, buf, sink, res, file, inmap, nextid, ids, tmpid>>
 
 CacheUnlock(g) ==
     /\ pc[g] = "unlock"
     /\ inmap' = inmap \ {g}
     /\ mutex' = IF mutex = g THEN 0 ELSE mutex
     /\ Goto(g, "write")
-    /\ UNCHANGED <<sheld, smade, scr, m, i, held, holders, pooled, made, buf, sink, res, cache, file, lit, nextid, ids, tmpid>>
+    /\ UNCHANGED <<dk, bw, sheld, smade, scr, m, i, held, holders, pooled, made, buf, sink, res, cache, file, lit, nextid, ids, tmpid>>
 
 \* `templ generate --watch` rewrites the literal file
 FileWrite ==
     /\ DevMode /\ file < MaxVer
     /\ file' = file + 1
-    /\ UNCHANGED <<sheld, smade, scr, pc, m, i, held, holders, pooled, made, buf, sink, res, mutex, cache, inmap, lit, nextid, ids, tmpid>>
+    /\ UNCHANGED <<dk, bw, sheld, smade, scr, pc, m, i, held, holders, pooled, made, buf, sink, res, mutex, cache, inmap, lit, nextid, ids, tmpid>>
 
 \* io.WriteString(buffer, literal i): buffered in the render's buffer object
 Write(g) ==
     /\ pc[g] = "write"
-    /\ buf' = [buf EXCEPT ![held[g]].data = Append(@, <<g, m[g], i[g], lit[g]>>)]
+    /\ Emit(g, <<g, m[g], i[g], lit[g]>>)
     /\ i' = [i EXCEPT ![g] = @ + 1]
-    /\ Goto(g, IF i[g] = DocLen THEN "release" ELSE IF DevMode THEN "lock" ELSE "write")
-    /\ UNCHANGED <<sheld, smade, scr, m, held, holders, pooled, made, sink, res, mutex, cache, file, inmap, lit, nextid, ids, tmpid>>
+    /\ Goto(g, IF i[g] < DocLen THEN (IF DevMode THEN "lock" ELSE "write")
+                ELSE IF dk[g] = "buffer" THEN "cflush" ELSE "release")
+    /\ UNCHANGED <<dk, sheld, smade, scr, m, held, holders, pooled, made, sink, res, mutex, cache, file, inmap, lit, nextid, ids, tmpid>>
 
 \* ReleaseBuffer: err = b.Flush(); bufferPool.Put(b)      ("putfirst": the other way round)
-FlushTo(b) == LET w == buf[b].w
-                  all == buf[b].data
-                  \* the writer of render FailAt fails midway: it accepts all but the last buffered token
-                  acc == IF w = FailAt /\ all # <<>> THEN SubSeq(all, 1, Len(all) - 1) ELSE all
-              IN [w |-> w, acc |-> acc, err |-> (w = FailAt)]
+\* moving buffered tokens on to where a writer points: a render's plain writer (the writer of render FailAt fails
+\* midway: it accepts all but the last token), a goroutine's output, or another buffered writer
+Accepted(tgt, data) == IF tgt = SinkRef(FailAt) /\ data # <<>> THEN SubSeq(data, 1, Len(data) - 1) ELSE data
+SinkAfter(tgt, data) == CASE tgt[1] = "sink" -> [sink EXCEPT ![tgt[2]] = @ \o Accepted(tgt, data)]
+                          [] tgt[1] = "und"  -> [sink EXCEPT ![<<tgt[2], m[tgt[2]]>>] = @ \o data]
+                          [] OTHER -> sink
+BwAfter(b0, tgt, data) == IF tgt[1] = "bw" THEN [b0 EXCEPT ![tgt[2]].data = @ \o data] ELSE b0
 
 Flush(g) ==
     /\ pc[g] = IF Bug = "putfirst" THEN "flush2" ELSE "release"
-    /\ LET f == FlushTo(held[g]) IN
-       /\ sink' = IF f.w = NoR THEN sink ELSE [sink EXCEPT ![f.w] = @ \o f.acc]
-       /\ buf' = [buf EXCEPT ![held[g]].data = <<>>]
-       /\ res' = [res EXCEPT ![R(g)] = IF f.err THEN "err" ELSE "nil"]
+    /\ LET b == held[g]
+           a == buf[b].alias
+           data == IF a = 0 THEN buf[b].data ELSE bw[a].data
+           tgt  == IF a = 0 THEN buf[b].w ELSE bw[a].tgt
+       IN
+       /\ sink' = SinkAfter(tgt, data)
+       /\ buf' = [buf EXCEPT ![b].data = <<>>]
+       /\ bw' = BwAfter(IF a = 0 THEN bw ELSE [bw EXCEPT ![a].data = <<>>], tgt, data)
+       /\ res' = IF dk[g] = "plain" THEN [res EXCEPT ![R(g)] = IF tgt = SinkRef(FailAt) THEN "err" ELSE "nil"] ELSE res
     /\ IF Bug = "putfirst"
        THEN /\ holders' = HDrop(holders, R(g), BufObj(held[g])) /\ held' = [held EXCEPT ![g] = 0] /\ Goto(g, "end")
        ELSE /\ holders' = HDrop(holders, R(g), BufObj(held[g])) /\ UNCHANGED held /\ Goto(g, "put")
-    /\ UNCHANGED <<sheld, smade, scr, m, i, pooled, made, mutex, cache, file, inmap, lit, nextid, ids, tmpid>>
+    /\ UNCHANGED <<dk, sheld, smade, scr, m, i, pooled, made, mutex, cache, file, inmap, lit, nextid, ids, tmpid>>
 
 Put(g) ==
     /\ pc[g] = IF Bug = "putfirst" THEN "release" ELSE "put"
     /\ pooled' = BPut(pooled, BufObj(held[g]))
     /\ IF Bug = "putfirst"
        THEN Goto(g, "flush2") /\ UNCHANGED held
-       ELSE Goto(g, "end") /\ held' = [held EXCEPT ![g] = 0]
-    /\ UNCHANGED <<sheld, smade, scr, m, i, holders, made, buf, sink, res, mutex, cache, file, inmap, lit, nextid, ids, tmpid>>
+       ELSE Goto(g, IF dk[g] = "plain" THEN "end" ELSE "cflush") /\ held' = [held EXCEPT ![g] = 0]
+    /\ UNCHANGED <<dk, bw, sheld, smade, scr, m, i, holders, made, buf, sink, res, mutex, cache, file, inmap, lit, nextid, ids, tmpid>>
 
-\* Render returns; the goroutine starts its next render
+\* Render has returned; the caller flushes its own buffered writer
+CallerFlush(g) ==
+    /\ pc[g] = "cflush"
+    /\ sink' = SinkAfter(bw[g].tgt, bw[g].data)
+    /\ bw' = BwAfter([bw EXCEPT ![g].data = <<>>], bw[g].tgt, bw[g].data)
+    /\ res' = [res EXCEPT ![R(g)] = "nil"]
+    /\ Goto(g, "end")
+    /\ UNCHANGED <<dk, sheld, smade, scr, m, i, held, holders, pooled, made, buf, mutex, cache, file, inmap, lit, nextid, ids, tmpid>>
+
+\* the goroutine starts its next render
 EndRender(g) ==
     /\ pc[g] = "end"
     /\ IF m[g] < M THEN m' = [m EXCEPT ![g] = @ + 1] /\ Goto(g, "get")
                    ELSE UNCHANGED m /\ Goto(g, "done")
-    /\ UNCHANGED <<sheld, smade, scr, i, held, holders, pooled, made, buf, sink, res, mutex, cache, file, inmap, lit, nextid, ids, tmpid>>
+    /\ UNCHANGED <<dk, bw, sheld, smade, scr, i, held, holders, pooled, made, buf, sink, res, mutex, cache, file, inmap, lit, nextid, ids, tmpid>>
 
-Next == \/ \E g \in G : \/ NewHandle(g) \/ NewHandle2(g) \/ Get(g) \/ Reset(g) \/ SGet(g) \/ SAdd(g) \/ SRead(g) \/ SPut(g) \/ SPut2(g)
+Next == \/ \E g \in G : \/ NewHandle(g) \/ NewHandle2(g) \/ Existing(g) \/ Get(g) \/ Reset(g) \/ SGet(g) \/ SAdd(g) \/ SRead(g) \/ SPut(g) \/ SPut2(g)
                         \/ CacheLock(g) \/ CacheLookup(g)
-                        \/ CacheDecide(g) \/ CacheUnlock(g) \/ Write(g) \/ Flush(g) \/ Put(g) \/ EndRender(g)
+                        \/ CacheDecide(g) \/ CacheUnlock(g) \/ Write(g) \/ Flush(g) \/ Put(g) \/ CallerFlush(g) \/ EndRender(g)
         \/ FileWrite
 
 Spec == Init /\ [][Next]_vars
@@ -250,6 +315,12 @@ Isolated == \A r \in Render :
                /\ res[r] = "err" => r = FailAt
                \* what a render read back from its scratch object is its own data only
                /\ \A k \in 1..Len(sink[r]) : sink[r][k][3] = 0 => sink[r][k][4] = {r}
+
+\* C14: the bytes of a render reach its own destination only: no pool buffer uses somebody's writer as its own, and a
+\* goroutine's buffered writer points at its own output and holds its own bytes (sink[r] is covered by Isolated)
+OwnDestinationOnly == /\ \A b \in Bufs : buf[b].alias = 0
+                      /\ \A g \in G : /\ bw[g].tgt = UndRef(g)
+                                       /\ \A k \in 1..Len(bw[g].data) : bw[g].data[k][1] = g
 
 \* C14: the cache map is only touched by the holder of watchStateMutex
 MutexProtectsCache == /\ Cardinality(inmap) <= 1
